@@ -1,4 +1,4 @@
-(* C09 (extension adele)  Letting time pass in one step or in several gives the same ticks and status, for the classes of Model/SpecAdele.v.  Times are integer ticks.  Entity level: C09_adele_programmed_additive: ProgrammedPeriodic.resolving (common_v.py) a then b = a+b (same entity, tick counts add) for every entity whose interval list is non-empty and positive; C09_adele_programmed_fuel / _fuel_independent: the specification loop never runs out of fuel and any sufficient fuel (the executable one used in correspondence runs) computes the same answer.  Component level: C09_adele_elapse_chunk: for every modelled class except AdeleOrderComponent, under wf_x (Periodic/Consumable well-formed, interval list positive, stack_per_period >= 0), the damage events of the two-step run are a permutation of those of the one-step run and the final states agree up to dead interval counters; C09_adele_elapse_chunk_views: hence validity, running and buff views agree.  C09_adele_wf_invariant: wf_x is preserved by every reducer of every class (Order included), so the theorems apply in every reachable state; C09_adele_elapsed_carries_time: every elapsed notification carries the elapse time (C06 clause).  AdeleOrderComponent: the full statement (same ticks) is FALSE of the shipped code: OrderSword.resolving caps the ticks of one call by int(time_left // interval) taken at the start of the call.  C09_adele_order_chunk_refuted: witness with the shipped parameters of the skill (interval 1020, lasting 45000), the state right after an accepted use: 100 then 44800 gives 45 ticks and counter 1000, 44900 at once gives 44 ticks and counter -20.  C09_adele_order_chunk_partial: largest true sub-statement: (i) the cooldown, the remaining time of every surviving sword and all bound entities never depend on the chunking (sword list within its capacity); (ii) if no sword reaches the cap in any of the three elapses (and counters are <= interval, an invariant) also the interval counters and the ticks agree.  C09_adele_order_chunk_views: hence the views of the class agree whatever the chunking.  C09_adele_order_invariant / _capacity: the invariant of (ii) is preserved, the capacity hypothesis is re-established by every accepted reducer of the class.  C09_adele_nonvacuous: a concrete programmed-periodic run. *)
+(* C09 (extension adele)  Letting time pass in one step or in several gives the same ticks and status, for the classes of Model/SpecAdele.v.  Times are integer ticks.  Entity level: C09_adele_programmed_additive: ProgrammedPeriodic.resolving (common_v.py) a then b = a+b (same entity, tick counts add) for every entity whose interval list is non-empty and positive; C09_adele_programmed_fuel / _fuel_independent: the specification loop never runs out of fuel and any sufficient fuel (the executable one used in correspondence runs) computes the same answer.  Component level: C09_adele_elapse_chunk: for every modelled class except AdeleOrderComponent, under wf_x (Periodic/Consumable well-formed, interval list positive, stack_per_period >= 0), the damage events of the two-step run are a permutation of those of the one-step run and the final states agree up to dead interval counters; C09_adele_elapse_chunk_views: hence validity, running and buff views agree.  C09_adele_wf_invariant: wf_x is preserved by every reducer of every class (Order included), so the theorems apply in every reachable state; C09_adele_elapsed_carries_time: every elapsed notification carries the elapse time (C06 clause).  AdeleOrderComponent: the full statement (same ticks) is FALSE of the shipped code, in two ways.  C09_adele_order_chunk_refuted: OrderSword.resolving caps the ticks of one call by int(time_left // interval) taken at the start of the call; witness with the shipped parameters of the skill (interval 1020, lasting 45000), the state right after an accepted use: 100 then 44800 gives 45 ticks and counter 1000, 44900 at once gives 44 ticks and counter -20.  C09_adele_order_chunk_refuted_capacity: a sword beyond the capacity (4 swords while the restore buff, owned by another component, has run out) is dropped at the END of the call, after ticking for the whole call: 100 then 9900 gives 31 ticks, 10000 at once gives 40 (same final state, no cap reached).  C09_adele_order_chunk_partial: largest true sub-statement: for a sword list within its capacity, (i) the cooldown, the remaining time of every surviving sword and all bound entities never depend on the chunking; (ii) if no sword reaches the cap in any of the three elapses (and counters are <= interval, an invariant) also the interval counters and the ticks agree.  C09_adele_order_chunk_views: hence the views of the class agree whatever the chunking.  C09_adele_order_invariant / _capacity: the invariant of (ii) is preserved, the capacity hypothesis is re-established by every accepted reducer of the class.  C09_adele_nonvacuous: a concrete programmed-periodic run. *)
 From Coq Require Import ZArith List Bool Permutation. From V.Model Require Import Comp SpecAdele. From V.Proofs Require Import CompReject CompChunk SpecAdelePG SpecAdeleReject SpecAdeleViews SpecAdeleChunk SpecAdeleOrder.
 
 Theorem C09_adele_programmed_additive :
@@ -81,6 +81,23 @@ Theorem C09_adele_order_chunk_refuted :
           ~ Permutation (dealts (e1 ++ e2)) (dealts e3) /\
           x_sw s2 = (1000, 100) :: nil /\ x_sw s3 = (-20, 100) :: nil.
 Proof. exact @order_chunk_refuted. Qed.
+
+Theorem C09_adele_order_chunk_refuted_capacity :
+  exists
+          (p : xpar) (s s1 : xst) (e1 : list ev) (s2 : xst) (e2 : list ev) 
+        (s3 : xst) (e3 : list ev) (a b : Z),
+          order_inv p s /\
+          ~ within_capacity p s /\
+          0 <= a /\
+          0 <= b /\
+          xreduce_spec Order XElapse p a s = Some (s1, e1) /\
+          xreduce_spec Order XElapse p b s1 = Some (s2, e2) /\
+          xreduce_spec Order XElapse p (a + b) s = Some (s3, e3) /\
+          Forall (uncapped (xp_swi p) a) (x_sw s) /\
+          Forall (uncapped (xp_swi p) b) (x_sw s1) /\
+          Forall (uncapped (xp_swi p) (a + b)) (x_sw s) /\
+          length (dealts (e1 ++ e2)) = 31%nat /\ length (dealts e3) = 40%nat /\ s2 = s3.
+Proof. exact @order_chunk_refuted_capacity. Qed.
 
 Theorem C09_adele_order_chunk_partial :
   forall (p : xpar) (a b : Z) (s s1 : xst) (e1 : list ev) (s2 : xst) 
@@ -199,6 +216,7 @@ Print Assumptions C09_adele_elapse_chunk_views.
 Print Assumptions C09_adele_wf_invariant.
 Print Assumptions C09_adele_elapsed_carries_time.
 Print Assumptions C09_adele_order_chunk_refuted.
+Print Assumptions C09_adele_order_chunk_refuted_capacity.
 Print Assumptions C09_adele_order_chunk_partial.
 Print Assumptions C09_adele_order_chunk_views.
 Print Assumptions C09_adele_order_invariant.
